@@ -26,8 +26,12 @@ def case(job):
     try:
         n = r.choice([0, 1, 2, 3, 5]) if not big else r.choice([15, 16, 17, 20])
         params = []
-        for _ in range(n):
+        refheavy = (seed % 3 == 0) and not big      # every third case: several reference arguments of the same kind
+        for _ in range(n if not refheavy else r.choice([2, 3, 4, 5])):
             c = r.random()
+            if refheavy:
+                params.append(("ref", r.choice(["account", "account", "asset", "application"])) if c < 0.8 else ("abi", r.choice(ABI_TYPES)))
+                continue
             params.append(("abi", r.choice(ABI_TYPES)) if (c < 0.72 or big) else (("txn", r.choice(["pay", "txn", "axfer"])) if c < 0.85 else ("ref", r.choice(["account", "asset", "application"]))))
         ret = r.choice(["void", "uint64"])
         sig = f"target({','.join(t for _, t in params)}){ret}"
